@@ -43,7 +43,16 @@ PairCases ==
      f \in ItemFeatures, g \in ItemFeatures, v \in VisValues, ev \in {"public", "crate"}, gl \in BOOLEAN}
   \cup {[enumvis |-> "public", cfg |-> PairCfg(f, <<P("vis", "str", v), P("name", "str", "renamed_" \o f)>>, g, <<P("vis", "str", w)>>), gapless |-> gl] :
      f \in {"iter", "names", "MIN", "next"}, g \in {"range", "iter", "MAX", "next_back", "as_str"}, v \in VisValues, w \in VisValues, gl \in BOOLEAN}
-AllCases == Cases \cup {x \in PairCases : \A p, q \in Entries(x.cfg) : p # q => EntryAt(x.cfg, p).f # EntryAt(x.cfg, q).f}
+StdCases == Cases \cup {x \in PairCases : \A p, q \in Entries(x.cfg) : p # q => EntryAt(x.cfg, p).f # EntryAt(x.cfg, q).f}
+\* shape-specific code paths may emit their own helper items: the same feature sets on an enum with many runs
+\* (12 singletons, i16) and on a large gapless enum (70 variants, i8 from -35); `shape` only selects the rendered body
+Sh(x, sh) == [enumvis |-> x.enumvis, cfg |-> x.cfg, gapless |-> x.gapless, shape |-> sh]
+ShapeBase ==
+  UNION {{[enumvis |-> "public", cfg |-> One(f, ps), gapless |-> g] : ps \in {<<>>, <<P("vis", "str", "")>>}, g \in BOOLEAN} : f \in ItemFeatures}
+  \cup {[enumvis |-> "public", cfg |-> Many(fs, m), gapless |-> g] : fs \in HelperSets, m \in {"", "table", "match"}, g \in BOOLEAN}
+  \cup {[enumvis |-> "public", cfg |-> [attrs |-> <<<<E("iter", "list", <<P("mode", "str", m)>>), E("try_from", "path", <<>>)>> \o (IF m = "table_inline" THEN <<>> ELSE <<E("range", "path", <<>>)>>)>>, varattr |-> NoVA],
+         gapless |-> g] : m \in {"next_and_back", "table_inline", "range", "table"}, g \in BOOLEAN}
+AllCases == {Sh(x, "std") : x \in StdCases} \cup {Sh(x, IF x.gapless THEN "big" ELSE "runs") : x \in ShapeBase}
 
 VARIABLE c
 Init == c \in {x \in AllCases : Legal(x.cfg, x.gapless) /\ Compilable(x)}
